@@ -392,6 +392,10 @@ func (c *tunnelChannel) allocateStream(ctx context.Context, clientStreams, serve
 		}
 	}
 
+	if err := validateMetadata(md); err != nil {
+		return nil, nil, err
+	}
+
 	ctx, cncl := context.WithCancel(ctx)
 	ctx = context.WithValue(ctx, tunnelMetadataOutgoingContextKey{}, c.tunnelMetadata)
 	ctx = context.WithValue(ctx, tunnelChannelContextKey{}, c)
